@@ -39,6 +39,10 @@ var instNames = func() []string {
 
 func mono(inst int) bool { return inst%4 < 2 }
 
+// sameNameMode: in the history now running (one at a time per process) the four instruments of every scope
+// are all called "same" - a conflict the SDK only warns about; each is still a stream of its own
+var sameNameMode bool
+
 type key struct {
 	inst int
 	sid  int
@@ -62,6 +66,20 @@ func extract(rm *metricdata.ResourceMetrics) (map[key]int64, []string) {
 			for i, n := range instNames {
 				if n == sm.Scope.Name+"/"+m.Name {
 					inst = i
+				}
+			}
+			if sameNameMode && m.Name == "same" {
+				// four instruments of one scope share the name: told apart by number type and monotonicity
+				for sc, sn := range scopeNames {
+					if sn != sm.Scope.Name {
+						continue
+					}
+					switch d := m.Data.(type) {
+					case metricdata.Sum[int64]:
+						inst = sc*4 + map[bool]int{true: 0, false: 2}[d.IsMonotonic]
+					case metricdata.Sum[float64]:
+						inst = sc*4 + map[bool]int{true: 1, false: 3}[d.IsMonotonic]
+					}
 				}
 			}
 			if inst < 0 {
@@ -251,6 +269,10 @@ func runHistory(k *vf.Case) {
 	prev := runtime.GOMAXPROCS(procs)
 	defer runtime.GOMAXPROCS(prev)
 	ctx := context.Background()
+	sameNameMode = r.Chance(1, 6)
+	if sameNameMode {
+		k.C.Count("histories_with_same_name_instruments", 1)
+	}
 	h := &harness{trackers: map[key]*tracker{}}
 	// the tracker table is complete before any reader (and its background goroutine) exists
 	G := vf.Pick(r, []int{2, 4, 8, 16})
@@ -305,6 +327,13 @@ func runHistory(k *vf.Case) {
 	var uf [3]metric.Float64UpDownCounter
 	for sc, name := range scopeNames {
 		m := mp.Meter(name)
+		if sameNameMode {
+			ci[sc], _ = m.Int64Counter("same")
+			cf[sc], _ = m.Float64Counter("same")
+			ui[sc], _ = m.Int64UpDownCounter("same")
+			uf[sc], _ = m.Float64UpDownCounter("same")
+			continue
+		}
 		ci[sc], _ = m.Int64Counter("ci")
 		cf[sc], _ = m.Float64Counter("cf")
 		ui[sc], _ = m.Int64UpDownCounter("ui")
@@ -313,7 +342,7 @@ func runHistory(k *vf.Case) {
 	// in a quarter of the histories each int64 counter also exists under a second spelling of its name
 	// (instrument names are case-insensitive): both handles are one stream
 	var ciAlias [3]metric.Int64Counter
-	if r.Chance(1, 4) {
+	if r.Chance(1, 4) && !sameNameMode {
 		for sc, name := range scopeNames {
 			ciAlias[sc], _ = mp.Meter(name).Int64Counter("CI")
 		}
@@ -513,6 +542,18 @@ func runHistory(k *vf.Case) {
 		}
 		c.vals, _ = extract(rm)
 		h.record(c)
+	}
+	// sometimes a periodic reader that is not the last one registered is shut down on its own first (it does
+	// its final export itself): the provider's Shutdown must still reach every other reader
+	if len(readers) >= 2 && r.Chance(1, 3) {
+		for ri, rs := range readers[:len(readers)-1] {
+			if rs.periodic {
+				rs.per.Shutdown(ctx)
+				k.C.Count("histories_with_a_reader_shut_down_on_its_own", 1)
+				_ = ri
+				break
+			}
+		}
 	}
 	shutdownCall := vf.Tick()
 	if err := mp.Shutdown(ctx); err != nil {
